@@ -429,6 +429,12 @@ func scenarios(tier string, yield0 func(any) bool) {
 		// PROXY-header stripping, after TLS termination followed by further matching)
 		mixes = []string{"F", "G", "W", "S", "FG", "WS", "GW"}
 	}
+	if os.Getenv("VERIF_C13_SUBSET") == "fallback" {
+		// as the listener part of C02: a connection no route wants is handed to the wrapped
+		// listener it arrived on, once, intact (alone, next to matched ones, one wrapper around
+		// two listeners)
+		mixes = []string{"F", "FF", "FT", "TF", "G"}
+	}
 	// a transient accept error between arrivals
 	if os.Getenv("VERIF_C13_SUBSET") == "" {
 		for _, m := range []string{"XF", "FXF", "FXT", "XFXF"} {
@@ -440,7 +446,7 @@ func scenarios(tier string, yield0 func(any) bool) {
 		}
 	}
 	// one wrapper instance around two listeners
-	if os.Getenv("VERIF_C13_SUBSET") == "" {
+	if sub := os.Getenv("VERIF_C13_SUBSET"); sub == "" || sub == "fallback" {
 		for _, m := range []string{"F", "FF", "FG"} {
 			for _, cons := range []string{"eager", "late"} {
 				if !yield(&Scn{Conns: m, Consumer: cons, CloseAt: -1, Procs: 1, Payload: 3, Two: true}) {
@@ -451,7 +457,7 @@ func scenarios(tier string, yield0 func(any) bool) {
 	}
 	for _, m := range mixes {
 		for _, cons := range []string{"eager", "late", "never"} {
-			if os.Getenv("VERIF_C13_SUBSET") == "stream" && cons == "never" {
+			if os.Getenv("VERIF_C13_SUBSET") != "" && cons == "never" {
 				continue
 			}
 			for _, procs := range []int{1, 2} {
